@@ -106,6 +106,7 @@ type Engine struct {
 	watched      map[*Loc]bool
 	watchHits    int
 	sleepBudget  int
+	declined     bool
 	replaced     map[string]FuncV
 	inReplaced   map[string]bool
 }
